@@ -4957,6 +4957,10 @@ class ResponseFuture(object):
             self._metrics.request_timer.addValue(time.time() - self._start_time)
 
         with self._callback_lock:
+            if self._final_result is not _NOT_SET or self._final_exception is not None:
+                # already completed: another speculative execution answered first, or the request
+                # timed out and this is a late response
+                return
             self._final_result = response
             # save off current callbacks inside lock for execution outside it
             # -- prevents case where _final_result is set, then a callback is
@@ -4979,6 +4983,8 @@ class ResponseFuture(object):
             self._metrics.request_timer.addValue(time.time() - self._start_time)
 
         with self._callback_lock:
+            if self._final_result is not _NOT_SET or self._final_exception is not None:
+                return  # already completed, see _set_final_result
             self._final_exception = response
             # save off current errbacks inside lock for execution outside it --
             # prevents case where _final_exception is set, then an errback is
